@@ -2,6 +2,7 @@ package nc
 
 import (
 	"fmt"
+	"go/constant"
 	"go/token"
 	"go/types"
 	"sort"
@@ -910,3 +911,314 @@ func (r *Run) c01Expressible() {
 }
 
 var _ = types.Typ
+
+// ---------------------------------------------------------------------------
+// Fifth round: path search over functions that keep related locals in one struct-valued local.
+//
+// FindPath decides `no feasible path` claims by following, per path, what is known about SSA values: a variable
+// go/ssa promotes to a register is one value (or a phi), so `if node != nil` tested twice is decided the second
+// time by the outcome of the first. A by-value local struct (`var split nodeSplit` ... `split.node != nil`) is
+// not promoted: every read of a field is a new load, and two tests of the same field look unrelated. For a local
+// whose address is private (structLocals: nothing but field loads/stores and whole-struct copies) a field is an
+// ordinary variable, and along ONE path its content is the value stored last. c01FindPath is FindPath with that
+// fact added: per path it keeps, for every such field, the SSA value it holds (the value stored, the zero constant
+// after the local came into being, the field of the struct copied in, or - when the path began later - the first
+// load of it, which then stands for the content), identifies every load with the value it reads, and lets what a
+// branch outcome says about one of them hold for the other. Nothing else changes: branches that are not decided
+// are followed both ways, so the search still over-approximates the feasible paths; a value or field the path
+// redefines (its block is entered again) is forgotten. Without struct-valued locals it IS FindPath.
+type c01Cells struct {
+	cells map[localCell]ssa.Value         // field -> the value it holds on this path
+	alias map[ssa.Value]ssa.Value         // load of a field -> the value it read
+	snaps map[ssa.Value]map[int]ssa.Value // load of a whole local -> what its fields held then
+}
+
+func (c *c01Cells) clone() *c01Cells {
+	n := &c01Cells{map[localCell]ssa.Value{}, map[ssa.Value]ssa.Value{}, map[ssa.Value]map[int]ssa.Value{}}
+	for k, v := range c.cells {
+		n.cells[k] = v
+	}
+	for k, v := range c.alias {
+		n.alias[k] = v
+	}
+	for k, v := range c.snaps {
+		n.snaps[k] = v // never modified after creation
+	}
+	return n
+}
+
+func (c *c01Cells) key() string {
+	var parts []string
+	for k, v := range c.cells {
+		parts = append(parts, fmt.Sprintf("%s.%d=%s", k.a.Name(), k.f, v.Name()))
+	}
+	for k, v := range c.alias {
+		parts = append(parts, k.Name()+">"+v.Name())
+	}
+	for k, m := range c.snaps {
+		for f, v := range m {
+			parts = append(parts, fmt.Sprintf("%s#%d=%s", k.Name(), f, v.Name()))
+		}
+	}
+	sort.Strings(parts)
+	return strings.Join(parts, ",")
+}
+
+// forget: v is computed anew (its block is entered again); whatever stood for its previous instance is unknown now.
+func (c *c01Cells) forget(v ssa.Value) {
+	delete(c.alias, v)
+	for l, x := range c.alias {
+		if x == v {
+			delete(c.alias, l)
+		}
+	}
+	for k, x := range c.cells {
+		if x == v {
+			delete(c.cells, k)
+		}
+	}
+	delete(c.snaps, v)
+	for k, m := range c.snaps {
+		for _, x := range m {
+			if x == v {
+				n := map[int]ssa.Value{}
+				for f2, x2 := range m {
+					if x2 != v {
+						n[f2] = x2
+					}
+				}
+				c.snaps[k] = n
+				break
+			}
+		}
+	}
+}
+
+func (c *c01Cells) rep(v ssa.Value) ssa.Value {
+	if x, ok := c.alias[v]; ok {
+		return x
+	}
+	return v
+}
+
+// sync: a load and the value it read are the same value; what the path knows of one it knows of the other.
+func (c *c01Cells) sync(env pathEnv) {
+	for i := 0; i < 2; i++ {
+		for l, x := range c.alias {
+			if l == x {
+				continue
+			}
+			el, ex := env[l], env.eval(x)
+			switch {
+			case el.known && !ex.known:
+				if _, isC := x.(*ssa.Const); !isC {
+					env[x] = el
+				}
+			case !el.known && ex.known:
+				env[l] = ex
+			}
+		}
+	}
+}
+
+// exec: the effect of one instruction on the fields of the tracked locals.
+func (c *c01Cells) exec(locals map[*ssa.Alloc]bool, env pathEnv, in ssa.Instruction) {
+	fields := func(a *ssa.Alloc) *types.Struct {
+		st, _ := deref(a.Type()).Underlying().(*types.Struct)
+		return st
+	}
+	zero := func(a *ssa.Alloc) {
+		st := fields(a)
+		for f := 0; st != nil && f < st.NumFields(); f++ {
+			if z := zeroScalarConst(st.Field(f).Type()); z != nil {
+				c.cells[localCell{a, f}] = z
+			} else {
+				delete(c.cells, localCell{a, f})
+			}
+		}
+	}
+	switch x := in.(type) {
+	case *ssa.Alloc:
+		if locals[x] {
+			zero(x)
+		}
+	case *ssa.Store:
+		if cell, ok := cellOfAddr(locals, x.Addr); ok {
+			c.cells[cell] = c.rep(x.Val)
+			return
+		}
+		a, ok := x.Addr.(*ssa.Alloc)
+		if !ok || !locals[a] {
+			return
+		}
+		st := fields(a)
+		if k, isK := x.Val.(*ssa.Const); isK && k.Value == nil {
+			zero(a)
+			return
+		}
+		snap, have := c.snaps[x.Val]
+		for f := 0; st != nil && f < st.NumFields(); f++ {
+			if v, ok := snap[f]; have && ok {
+				c.cells[localCell{a, f}] = v
+			} else {
+				delete(c.cells, localCell{a, f})
+			}
+		}
+	case *ssa.UnOp:
+		if x.Op != token.MUL {
+			return
+		}
+		if cell, ok := cellOfLoad(locals, x); ok {
+			if v, known := c.cells[cell]; known {
+				c.alias[x] = v
+				if ev := env.eval(v); ev.known {
+					env[x] = ev
+				}
+			} else {
+				c.cells[cell] = x // the first read on the path stands for the content
+			}
+			return
+		}
+		if a, ok := x.X.(*ssa.Alloc); ok && locals[a] {
+			snap := map[int]ssa.Value{}
+			st := fields(a)
+			for f := 0; st != nil && f < st.NumFields(); f++ {
+				if v, ok := c.cells[localCell{a, f}]; ok {
+					snap[f] = v
+				}
+			}
+			c.snaps[x] = snap
+		}
+	}
+}
+
+func c01FindPath(p *Prog, q PathQuery) []string {
+	locals := structLocals(q.Fn)
+	if len(locals) == 0 || q.FlagBlind {
+		return FindPath(p, q)
+	}
+	seen := map[string]bool{}
+	var found *stateNode
+	var walkBlock func(b, from *ssa.BasicBlock, startIdx int, env pathEnv, cs *c01Cells, par *stateNode) bool
+	walkBlock = func(b, from *ssa.BasicBlock, startIdx int, env pathEnv, cs *c01Cells, par *stateNode) bool {
+		node := &stateNode{b: b, par: par}
+		if startIdx == 0 {
+			newVals := map[ssa.Value]envVal{}
+			for _, in := range b.Instrs {
+				phi, ok := in.(*ssa.Phi)
+				if !ok {
+					break
+				}
+				if from != nil {
+					for i, pr := range b.Preds {
+						if pr == from {
+							newVals[phi] = env.eval(phi.Edges[i])
+							break
+						}
+					}
+				}
+			}
+			for _, in := range b.Instrs {
+				if v, ok := in.(ssa.Value); ok {
+					delete(env, v)
+					cs.forget(v)
+				}
+			}
+			for k, v := range newVals {
+				if v.known {
+					env[k] = v
+				}
+			}
+			k := fmt.Sprintf("%d|%s|%s", b.Index, env.key(), cs.key())
+			if seen[k] {
+				return false
+			}
+			seen[k] = true
+			if q.Explored != nil {
+				*q.Explored++
+			}
+		}
+		for i := startIdx; i < len(b.Instrs); i++ {
+			in := b.Instrs[i]
+			if q.Target != nil && q.Target(in) {
+				node.hit = in
+				found = node
+				return true
+			}
+			if q.Avoid != nil && q.Avoid(in) {
+				return false
+			}
+			cs.exec(locals, env, in)
+		}
+		last := b.Instrs[len(b.Instrs)-1]
+		type nxt struct {
+			s       *ssa.BasicBlock
+			assume  bool
+			outcome bool
+		}
+		var nexts []nxt
+		if t, ok := last.(*ssa.If); ok {
+			cs.sync(env)
+			dec := env.eval(t.Cond)
+			if dec.known && dec.c != nil && dec.c.Kind() == constant.Bool {
+				if constant.BoolVal(dec.c) {
+					nexts = append(nexts, nxt{b.Succs[0], true, true})
+				} else {
+					nexts = append(nexts, nxt{b.Succs[1], true, false})
+				}
+			} else {
+				nexts = append(nexts, nxt{b.Succs[0], true, true}, nxt{b.Succs[1], true, false})
+			}
+		} else {
+			for _, s := range b.Succs {
+				nexts = append(nexts, nxt{s, false, false})
+			}
+		}
+		for _, n := range nexts {
+			if q.AvoidEdge != nil && q.AvoidEdge(b, n.s) {
+				continue
+			}
+			if q.TargetEdge != nil && q.TargetEdge(b, n.s) {
+				found = &stateNode{b: n.s, par: node}
+				return true
+			}
+			e2, c2 := env.clone(), cs.clone()
+			if n.assume {
+				e2.assume(last.(*ssa.If).Cond, n.outcome)
+				c2.sync(e2)
+			}
+			if walkBlock(n.s, b, 0, e2, c2, node) {
+				return true
+			}
+		}
+		return false
+	}
+	env := pathEnv{}
+	for _, v := range q.NonNil {
+		env[v] = envVal{known: true, nonNil: true}
+	}
+	for _, v := range q.IsNil {
+		env[v] = envVal{known: true, isNil: true}
+	}
+	cs := (&c01Cells{}).clone()
+	switch {
+	case q.StartAfter != nil:
+		walkBlock(q.StartAfter.Block(), nil, instrIndex(q.StartAfter)+1, env, cs, nil)
+	case q.StartEdge[0] != nil:
+		from, to := q.StartEdge[0], q.StartEdge[1]
+		if iff, ok := from.Instrs[len(from.Instrs)-1].(*ssa.If); ok && from.Succs[0] != from.Succs[1] {
+			env.assume(iff.Cond, from.Succs[0] == to)
+		}
+		walkBlock(to, from, 0, env, cs, &stateNode{b: from})
+	default:
+		walkBlock(q.Fn.Blocks[0], nil, 0, env, cs, nil)
+	}
+	if found == nil {
+		return nil
+	}
+	var out []string
+	for n := found; n != nil; n = n.par {
+		out = append([]string{describeBlock(p, n.b, n.hit)}, out...)
+	}
+	return out
+}
